@@ -271,15 +271,57 @@ func (v *Verifier) findFunc(pkgPath, rel string) *ssa.Function {
 	if sp == nil {
 		return nil
 	}
-	for fn := range ssautil.AllFunctions(v.prog) {
-		if fn.Pkg == sp && fn.RelString(sp.Pkg) == rel {
-			return fn
-		}
-		if fn.Pkg == nil && fn.Parent() != nil {
-			// closures have Pkg set too; nothing to do
-		}
+	// closures: Parent$1$2
+	base := rel
+	var anon []string
+	if k := strings.Index(rel, "$"); k >= 0 && !strings.HasPrefix(rel, "init$") {
+		base = rel[:k]
+		anon = strings.Split(rel[k+1:], "$")
 	}
-	return nil
+	var fn *ssa.Function
+	if strings.HasPrefix(base, "(") {
+		// (T).M or (*T).M
+		close := strings.Index(base, ").")
+		if close < 0 {
+			return nil
+		}
+		tn, mn := base[1:close], base[close+2:]
+		ptr := strings.HasPrefix(tn, "*")
+		tn = strings.TrimPrefix(tn, "*")
+		obj := sp.Pkg.Scope().Lookup(tn)
+		if obj == nil {
+			return nil
+		}
+		var recv types.Type = obj.Type()
+		if ptr {
+			recv = types.NewPointer(recv)
+		}
+		sel := v.prog.MethodSets.MethodSet(recv).Lookup(sp.Pkg, mn)
+		if sel == nil {
+			return nil
+		}
+		fn = v.prog.MethodValue(sel)
+		// a value-receiver method looked up through the pointer type is a wrapper
+		if fn != nil && fn.Synthetic != "" {
+			if f2 := v.prog.FuncValue(sel.Obj().(*types.Func)); f2 != nil {
+				fn = f2
+			}
+		}
+	} else {
+		fn = sp.Func(base)
+	}
+	for _, a := range anon {
+		if fn == nil {
+			return nil
+		}
+		var idx int
+		fmt.Sscan(a, &idx)
+		if idx < 1 || idx > len(fn.AnonFuncs) {
+			return nil
+		}
+		fn = fn.AnonFuncs[idx-1]
+	}
+	return fn
 }
 
 type FuncResult struct {
@@ -326,7 +368,7 @@ func (v *Verifier) VerifyFunc(fc *FuncContract) (res *FuncResult) {
 	var allocs []Term
 	ex := &Exec{v: v, c: c, fn: fn, fc: fc, fname: fc.Full(), vals: map[ssa.Value]Val{}, obls: &obls,
 		count: map[string]int{}, allocs: &allocs, decAtHeader: map[*ssa.BasicBlock]Val{}, headerEnv: map[*ssa.BasicBlock]*Env{}, closureVals: map[Term]*ssa.MakeClosure{},
-		stack: []string{fn.String()}}
+		stack: []string{fn.String()}, named: map[string]Val{}, callSeen: map[string]bool{}}
 	ex.top = ex
 	ex.nilcheck = fc.Options["nilcheck"] != ""
 	ex.sweep = fc.Pkg != modulePath+"/counts" || fc.Options["sweep"] != ""
@@ -427,6 +469,14 @@ func (v *Verifier) VerifyFunc(fc *FuncContract) (res *FuncResult) {
 	if len(results) == 1 {
 		post.vars["result"] = results[0]
 	}
+	for k, nv := range ex.named {
+		post.vars[k] = nv
+	}
+	for _, cn := range fc.CallNames {
+		if !ex.callSeen[cn.Name] {
+			unsup("call clause: call %d of %s not found", cn.Ordinal, cn.Callee)
+		}
+	}
 	for i, rv := range results {
 		plan.Outs = append(plan.Outs, OutInfo{Name: fmt.Sprintf("result%d", i), GoExpr: fmt.Sprintf("r%d", i), Type: rv.Typ, Val: rv})
 	}
@@ -463,7 +513,7 @@ func (v *Verifier) VerifyFunc(fc *FuncContract) (res *FuncResult) {
 		}
 	}
 	for _, en := range fc.Ensures {
-		t, err := post.Bool(en.E)
+		t, err := post.Goal(en.E)
 		if err != nil {
 			unsup("ensures: %v", err)
 		}
@@ -489,7 +539,79 @@ func (v *Verifier) VerifyFunc(fc *FuncContract) (res *FuncResult) {
 	if fc.HasMod {
 		ex.frameCheck(env, mem, outMem, outReach)
 	}
+	v.subtypeObligations(ex, fn, env, post, outReach, results)
 	return
+}
+
+// subtypeObligations: when fn is a method of a type that implements an
+// interface with a contract for that method, the interface contract must
+// follow (behavioural subtyping); self is the boxed receiver.
+func (v *Verifier) subtypeObligations(ex *Exec, fn *ssa.Function, pre, post *Env, reach Term, results []Val) {
+	sig := fn.Signature
+	if sig.Recv() == nil || len(fn.Params) == 0 {
+		return
+	}
+	recvT := sig.Recv().Type()
+	var keys []string
+	for k, fc := range v.cs.Funcs {
+		if fc.Iface {
+			keys = append(keys, k)
+		}
+	}
+	sort.Strings(keys)
+	for _, k := range keys {
+		ifc := v.cs.Funcs[k]
+		dot := strings.LastIndex(ifc.Name, ".")
+		if dot < 0 || ifc.Name[dot+1:] != fn.Name() {
+			continue
+		}
+		it := v.lookupType(v.pkgOf(ifc.Pkg), ifc.Name[:dot])
+		if it == nil {
+			continue
+		}
+		iface, ok := it.Underlying().(*types.Interface)
+		if !ok || !types.Implements(recvT, iface) {
+			continue
+		}
+		// bind the interface method's parameter names to this method's arguments
+		var msig *types.Signature
+		for i := 0; i < iface.NumMethods(); i++ {
+			if iface.Method(i).Name() == fn.Name() {
+				msig = iface.Method(i).Type().(*types.Signature)
+			}
+		}
+		if msig == nil {
+			continue
+		}
+		self := ex.c.box(ex.vals[fn.Params[0]], recvT)
+		self.Typ = it
+		penv := pre.child()
+		qenv := post.child()
+		qenv.old = penv
+		penv.vars["self"] = self
+		qenv.vars["self"] = self
+		for i := 0; i < msig.Params().Len() && i+1 < len(fn.Params); i++ {
+			a := ex.vals[fn.Params[i+1]]
+			if n := msig.Params().At(i).Name(); n != "" && n != "_" {
+				penv.vars[n] = a
+				qenv.vars[n] = a
+			}
+			penv.vars[fmt.Sprintf("arg%d", i)] = a
+			qenv.vars[fmt.Sprintf("arg%d", i)] = a
+		}
+		for i, rv := range results {
+			if n := msig.Results().At(i).Name(); n != "" && n != "_" {
+				qenv.vars[n] = rv
+			}
+		}
+		for _, en := range ifc.Ensures {
+			t, err := qenv.Goal(en.E)
+			if err != nil {
+				unsup("interface contract %s: %v", ifc.Full(), err)
+			}
+			ex.addObl("subtype:"+ifc.Full(), en.Label, reach, t, fn.Pos(), en.Text, false)
+		}
+	}
 }
 
 // frameCheck: every memory array that differs between entry and exit differs
